@@ -11,10 +11,13 @@ pub struct Side {
     pub payloads: Vec<u32>,   // payload of every value dropped, in drop order
     pub next_id: u32,
     pub created: Vec<u32>,    // payload per id
+    /// destructor calls on something that is not a value this side ever created (unknown id):
+    /// uninitialised or stale memory treated as a live element
+    pub bogus: u32,
 }
 impl Side {
     fn new() -> Self {
-        Side { drops: vec![0; 4096], payloads: Vec::with_capacity(4096), next_id: 1, created: Vec::with_capacity(4096) }
+        Side { drops: vec![0; 4096], payloads: Vec::with_capacity(4096), next_id: 1, created: Vec::with_capacity(4096), bogus: 0 }
     }
 }
 
@@ -34,6 +37,7 @@ pub fn reset_sides() {
             side.payloads.clear();
             side.created.clear();
             side.next_id = 1;
+            side.bogus = 0;
         }
     });
     cb_reset(u32::MAX, 0);
@@ -61,6 +65,9 @@ fn record_drop(side: u8, id: u32, val: u32) {
         if (id as usize) < sd.drops.len() {
             sd.drops[id as usize] = sd.drops[id as usize].saturating_add(1);
         }
+        if id == 0 || id >= sd.next_id {
+            sd.bogus += 1;
+        }
         sd.payloads.push(val);
     })
 }
@@ -68,6 +75,10 @@ fn record_drop(side: u8, id: u32, val: u32) {
 /// ids on `side` whose destructor ran more than once
 pub fn double_drops(side: u8) -> Vec<u32> {
     SIDES.with(|s| s.borrow()[side as usize].drops.iter().enumerate().filter(|(_, d)| **d > 1).map(|(i, _)| i as u32).collect())
+}
+/// destructor calls on memory that never held a value created on `side`
+pub fn bogus_drops(side: u8) -> u32 {
+    SIDES.with(|s| s.borrow()[side as usize].bogus)
 }
 pub fn drops_of(side: u8, id: u32) -> u8 {
     SIDES.with(|s| s.borrow()[side as usize].drops.get(id as usize).cloned().unwrap_or(0))
